@@ -383,6 +383,13 @@ class Interp:
                         n = None
                     return Field(node=call, codec=cid, dt=dt, role="data", count=self.ev(n) if n is not None else None)
                 n = args[1] if len(args) > 1 else kw.get("n")
+                if (self.side == "w") != (f.attr == "bpad") and self.func.name in ("_write", "_build", "new", "__enter__"):
+                    # a reader that PADS writes into the file it reads; a writer that SKIPS emits nothing (a seek past the end yields bytes
+                    # only if something is written behind it): the reserved bytes are missing whenever they come last
+                    from .report import DefiniteViolation
+                    raise DefiniteViolation("codec-call-shape", self.m.path.name, self.func.qualname, call,
+                                            f"`{norm(call)}` in a {'writer' if self.side == 'w' else 'reader'}: {'skip() moves the cursor and emits no bytes, so the reserved word is not written (the record is short by it when nothing follows)' if self.side == 'w' else 'bpad() writes zeros into the stream being decoded'}",
+                                            construct=f"{self.func.qualname} {f.attr} on the {'write' if self.side == 'w' else 'read'} side", props=("C01", "C02", "C03", "C05", "C06", "C09", "C12"))
                 return Field(node=call, codec=cid, dt=dt, role="pad" if f.attr == "bpad" else "skip",
                              count=self.ev(n) if n is not None else C(1))
             r = self.prog.resolve(self.m, name) if name not in self.env else None
